@@ -90,7 +90,7 @@ func (f *Frame) appendOp(c *ssa.CallCommon, args []*Value) *Value {
 	if t.Sort == sStr { // append([]byte, string...)
 		n = app("s.len", t.T)
 		tmp := e.declare("strarr", arrSort(sInt))
-		e.assume("true", eq(app("bytes", tmp, "0", n), t.T))
+		e.assume("true", eq(app("bytesN", tmp, "0", n), t.T))
 		srcArr, srcOff = tmp, "0"
 	} else {
 		n = e.define("app.n", sInt, app("slen", t.T))
@@ -142,7 +142,7 @@ func (f *Frame) copyOp(c *ssa.CallCommon, args []*Value) *Value {
 	if s.Sort == sStr {
 		slen = app("s.len", s.T)
 		tmp := e.declare("strarr", arrSort(sInt))
-		e.assume("true", eq(app("bytes", tmp, "0", slen), s.T))
+		e.assume("true", eq(app("bytesN", tmp, "0", slen), s.T))
 		srcArr, srcOff = tmp, "0"
 	} else {
 		slen = app("slen", s.T)
